@@ -1460,7 +1460,13 @@ def collect_run(ctx, spec, tuner, sched, backend, store, rec, summaries, run_err
         clock = row.get("st_tuner_time", 0.0) if "st_tuner_time" not in dv["result"] else 0.0
         events.append(dict(dv, clock=clock if isinstance(clock, float) else 0.0, fire=(i + 1) in stores[:-1]))
     table = table_rows(df) if df is not None else []
-    return dict(deliveries=deliveries, events=events, handed=list(rec.handed), history=list(ts.calls), rows=rows, df=df,
+    # the update calls: recorded by the status object the harness put into the tuner; if the tuner replaced that
+    # object, reconstructed from the recorded loop (every poll and every trial start is one update call)
+    if hasattr(ts, "calls"):
+        history = list(ts.calls)
+    else:
+        history = [(list(st[1].keys()), list(st[2])) if st[0] == "batch" else ([st[1]], []) for st in rec.log]
+    return dict(deliveries=deliveries, events=events, handed=list(rec.handed), history=history, rows=rows, df=df,
                 overall=overall, per_trial=per_trial, backend_cfgs=backend_cfgs, bq=bq, tq=tq, table=table, eqs=eqs,
                 stores=stores, n_delivered=n_delivered, meta_ok=meta_ok, summaries=summaries, run_error=run_error,
                 split=split, run_model=None if split is not None else tuner_run_inputs(sched, backend, store, rec, run_error))
@@ -1508,6 +1514,17 @@ def run_resumed(ctx, spec):
                 run_error = raised(e)
             split = len(sched.delivered)
             path = str(tuner.tuner_path)
+            if spec["resume"] == "same_object" and run_error is None:
+                # the SAME Tuner object is continued: larger stop criterion, run() again
+                try:
+                    tuner.stop_criterion = cls.StopAfter(spec["max_results"] + spec["more_results"],
+                                                         spec["max_loops"])
+                    n_out = len(out.getvalue())
+                    tuner.run()
+                    summaries = [parse_summary(out.getvalue()[n_out:])]
+                except Exception as e:  # noqa: BLE001
+                    run_error, summaries = raised(e), []
+                return collect_run(ctx, spec, tuner, sched, backend, store, rec, summaries, run_error, split=split)
             if spec["resume"] == "moved":  # the user copies the experiment directory to the other machine
                 other = os.path.join(root, "other-root")
                 os.makedirs(other, exist_ok=True)
@@ -1551,10 +1568,10 @@ def run_cases(ctx, replay, corpus_only=False):
         specs = corpus_specs("run")
     else:
         specs = [gen_run_spec(rng, i) for i in range(ctx.n(60, 800))]
-        for i in range(ctx.n(24, 300)):  # runs that are interrupted, loaded back (Tuner.load) and continued
+        for i in range(ctx.n(30, 360)):  # runs that are interrupted and continued (same object, or Tuner.load)
             sp = gen_run_spec(rng, 10000 + i)
             sp.pop("faults", None)
-            sp.update(resume=rng.choice(["same", "moved", "moved"]), more_results=rng.randint(2, 15),
+            sp.update(resume=rng.choice(["same", "moved", "moved", "same_object", "same_object"]), more_results=rng.randint(2, 15),
                       max_results=rng.randint(2, 10), rui=rng.choice([0, 10.0, 10.0, -1]))
             specs.append(sp)
         for i in range(ctx.n(16, 200)):  # the experiment is run AGAIN under the same fixed name (fresh objects)
